@@ -8,6 +8,7 @@ import (
 
 	"github.com/dolthub/go-mysql-server/sql"
 	"github.com/dolthub/go-mysql-server/vh/internal/fx"
+	"github.com/dolthub/go-mysql-server/vh/internal/stats"
 )
 
 // variant of an acquire call
@@ -125,10 +126,17 @@ type sqlBackend struct {
 	id   []uint32
 }
 
+// curStats is the collector of the running test; scalar flushes it when the statement
+// watchdog expires.
+var curStats *stats.Collector
+
 func newSQLBackend(n int) *sqlBackend {
 	b := &sqlBackend{f: fx.New(fx.Opts{})}
 	for i := 0; i < n; i++ {
 		s := b.f.NewSession("", "", "")
+		// the fixture's statement deadline must never decide anything here: a GET_LOCK that waits
+		// for a holder on a loaded machine is not an error. It becomes a watchdog (inconclusive).
+		s.Timeout = watchdog
 		b.sess = append(b.sess, s)
 		b.id = append(b.id, s.ID)
 	}
@@ -146,7 +154,7 @@ func (b *sqlBackend) scalar(s int, q string) (bool, int64, error) {
 			return false, 0, fmt.Errorf("%s: PANIC %v\n%s", q, r.Panic, r.Stack)
 		}
 		if r.TimedOut {
-			return false, 0, fmt.Errorf("%s: timed out", q)
+			inconclusive(curStats, "%s did not return within the statement watchdog", q)
 		}
 		return false, 0, fmt.Errorf("%s: %v", q, r.Err)
 	}
